@@ -406,6 +406,29 @@ func (q *c08Seq) doUpdate(f *c08Fam, pending bool, expMs int64, props map[string
 	q.opLine(desc, res)
 }
 
+// doStaleUpdate: the record is read (as ReportFailure / Sync do), removed meanwhile (delivered and deleted, or
+// swept by the expiry job) and then written back with Store.Update: that must fail and must not bring the
+// record back. `how`: 0 = Delete, 1 = expiry sweep of a record made to expire.
+func (q *c08Seq) doStaleUpdate(f *c08Fam, how int) {
+	bi, err := q.store.QueryId(f.bundle(nil).ID())
+	if err != nil {
+		return
+	}
+	if how == 0 {
+		q.doDelete(f)
+	} else {
+		q.doUpdate(f, true, q.nowMs-5000, nil)
+		q.doSweep()
+	}
+	bi.Pending = true
+	res := "panic"
+	func() {
+		defer func() { _ = recover() }()
+		res = c08Res(q.store.Update(bi))
+	}()
+	q.opLine("staleupdate:"+f.id(), res)
+}
+
 func (q *c08Seq) replaceDesc(b bpv7.Bundle) string {
 	return "replace" + strings.TrimPrefix(q.pushDesc(b), "push")
 }
@@ -562,8 +585,10 @@ func (q *c08Seq) randomOp(reopens *int) {
 		q.doPush(f.bundleV(q.randFrag(f), q.r.intn(4)/3))
 	case k < 66:
 		q.doUpdate(f, q.r.intn(2) == 0, q.randExp(), q.randProps())
-	case k < 76:
+	case k < 74:
 		q.doDelete(f)
+	case k < 76:
+		q.doStaleUpdate(f, q.r.intn(2))
 	case k < 83:
 		q.doSweep()
 	case k < 90:
@@ -758,6 +783,35 @@ func c08Grid(f *c08Fam, k int) []*[3]int {
 		out = append(out, &[3]int{g * i, n, t})
 	}
 	return out
+}
+
+// c08RunStale: items read before their record was removed are written back (directed; both ways of removal,
+// whole bundles and fragment records), then the same bundles are pushed again and must be filed again.
+func c08RunStale(scratch, sid string, seed uint64) []string {
+	q := c08NewSeq(scratch, sid, seed)
+	keep := q.newFam(false, 10+q.r.intn(10))
+	q.doPush(keep.bundle(nil))
+	for i := 0; i < 4; i++ {
+		f := q.newFam(false, 12+q.r.intn(12))
+		if i%2 == 0 {
+			q.doPush(f.bundle(nil))
+		} else {
+			for _, fr := range c08Grid(f, 2) {
+				q.doPush(f.bundle(fr))
+			}
+		}
+		q.doUpdate(f, true, q.futureExp(), q.randProps())
+		q.doStaleUpdate(f, i/2)
+		q.doQuery(f)
+		if i%2 == 0 {
+			q.doPush(f.bundle(nil)) // a record brought back without files would make this Push a no-op
+			q.doQuery(f)
+		}
+	}
+	q.doReopen()
+	q.doQuery(keep)
+	_ = q.store.Close()
+	return q.out
 }
 
 func c08RunCrash(scratch, sid string, seed uint64, variants []int) []string {
@@ -1167,6 +1221,7 @@ func TestVerifC08(t *testing.T) {
 		}
 		add(sid, func() []string { return c08RunCrash(scratch, sid, seed, vs) })
 	}
+	add("st0", func() []string { return c08RunStale(scratch, "st0", seed) })
 	nSweep, maxKills := 1, 0
 	if thorough {
 		nSweep = 8
